@@ -32,4 +32,20 @@ IsMaxBytes(b, neg) == /\ b[Len(b)] = 255
                       /\ \A i \in 1..(Len(b) - 2) : b[i] = 255
 \* is the value representable as a single (low bytes of a double all zero)?
 DoubleIsSingle(b) == Len(b) = 8 /\ \A i \in 1..4 : b[i] = 0
+
+(* Self-test of the big-natural arithmetic at the limb base in use, evaluated once at every TLC start
+   (BigNat_MC checks the operators exhaustively on small numbers with a small base). *)
+ASSUME BigNatSelfTest ==
+    LET m56 == Sub(Pow2(56), <<1>>)
+    IN  /\ Mul(m56, m56) = Add(Sub(Pow2(112), Pow2(57)), <<1>>)
+        /\ FromBytesLE(<<255, 255, 255, 255, 255, 255, 255>>) = m56
+        /\ FromBytesLE(<<1, 2, 3, 4, 5, 6, 7>>) = FromBytesHorner(<<1, 2, 3, 4, 5, 6, 7>>)
+        /\ FromDec(<<1, 8, 4, 4, 6, 7, 4, 4, 0, 7, 3, 7, 0, 9, 5, 5, 1, 6, 1, 6>>) = Pow2(64)
+        /\ Pow10(40) = Mul(Pow10(17), Pow10(23))
+        /\ Pow10(38) = Pow10Slow(38)
+        /\ \A k \in 1..Pow10Max : Pow10(k) = MulSmall(Pow10(k - 1), 10)
+        /\ ModSmall(Pow10(30), 1024) = 0 /\ ModSmall(Pow10(30), 7) = 1
+        /\ DivSmall(Pow10(30), 10) = Pow10(29)
+        /\ ScCmp(Sc(FALSE, <<1>>, 10, -3), Sc(FALSE, <<1, 1>>, -15, 0)) = 1      \* 1.024 > 1 + 2^-15
+        /\ ScEq(ScAdd(Sc(FALSE, <<5>>, -1, 0), Sc(TRUE, <<25>>, 0, -1)), ScZero)    \* 5/2 - 25/10 = 0
 =============================================================================
